@@ -184,6 +184,9 @@ func (t *TrafBox) Info(w io.Writer, specificBoxLevels, indent, indentStep string
 func (t *TrafBox) OptimizeTfhdTrun() error {
 	tfhd := t.Tfhd
 	trun := t.Trun
+	if tfhd == nil || trun == nil {
+		return errors.New("tfhd or trun box missing in traf")
+	}
 	if len(trun.Samples) == 0 {
 		return errors.New("no samples in trun")
 	}
